@@ -258,7 +258,8 @@ class Report:
         self.impl_spec_failures = 0
         self.panics = 0
         self.traces = 0
-        self.violations = []           # (replay_path, found_input)
+        self.violations = []           # (replay_path, found_input, what)
+        self.pending = []              # broken obligations / correspondences without a failing input (yet)
         self.known = []
         self.hist = {}
         self.notes = []
@@ -288,10 +289,25 @@ class Report:
         path = os.path.join(REPLAYS, f"{self.prop}-{h}.json")
         with open(path, "w") as f:
             f.write(blob + "\n")
+        if not found_input:
+            # reported at the end, and only if the search turns up no concrete failing input
+            self.pending.append((path, what))
+            return
         self.violations.append((path, found_input, what))
-        tail = "" if found_input else " no-failing-input-found"
-        print(f"VIOLATION property={self.prop} replay={path}{tail}")
+        print(f"VIOLATION property={self.prop} replay={path}")
         print(f"  -> {what}")
+
+    def flush_pending(self):
+        if self.pending and not self.violations:
+            path, what = self.pending[0]
+            self.violations.append((path, False, what))
+            print(f"VIOLATION property={self.prop} replay={path} no-failing-input-found")
+            print(f"  -> {what}")
+            for p2, w2 in self.pending[1:4]:
+                print(f"  (also: {w2[:200]} -> {p2})")
+        elif self.pending:
+            for p2, w2 in self.pending[:4]:
+                print(f"  (obligation / correspondence also broken: {w2[:200]} -> {p2})")
 
     def known_finding(self, text):
         if text not in self.known:
@@ -299,6 +315,7 @@ class Report:
             print(f"KNOWN-FINDING: property={self.prop} {text}")
 
     def finish(self):
+        self.flush_pending()
         wall = time.time() - self.t0
         n_ob = len(self.obligations)
         n_ok = sum(1 for _, ok, _ in self.obligations if ok)
